@@ -181,7 +181,7 @@ func init() {
 		},
 		Assumptions: authzAssume, Models: relModels,
 		Explanation: "SerializePolicies (once or twice) -> ideal codec -> LoadPolicies into a fresh authorizer for the same or another token, then Authorize and Query on both and on the original authorizer that was saved; refusal after evaluation",
-		LevelText:   "Bounded symbolic relational model checking: the restored authorizer gives the same outcome class and query results as an authorizer loaded directly with the same content, for the same token and for a different token; SerializePolicies fails after Authorize and after Query, whether they succeeded or ended in a run-limit error.",
+		LevelText:   "Bounded symbolic relational model checking: the restored authorizer gives the same outcome class and query results as an authorizer loaded directly with the same content, for the same token and for a different token; SerializePolicies fails after Authorize and after Query, whether they succeeded or ended in a run-limit error, and still fails after a valid snapshot has then been loaded into the evaluated authorizer.",
 		LevelNote:   "Message-level codec; malformed snapshot bytes are part of C10's hostile-message harness.", DesignRef: "DESIGN.md §6 authz family",
 	})
 }
